@@ -4,13 +4,13 @@
 (* set of disjoint regions in any order (AddRegion), optionally a start     *)
 (* address (SetStart), writes the file with the reference encoder in one of *)
 (* its styles (Save) and then reads it back record by record with the       *)
-(* streaming reader (the Read actions), exactly the actions the conformance check      *)
-(* (IHex_Trace) takes over files written by ppci.  The laws are invariants  *)
-(* of the final state.                                                      *)
+(* streaming reader (the Read actions), exactly the actions the conformance *)
+(* check (IHex_Trace) takes over files written by ppci.  The laws are       *)
+(* invariants of the final state.                                           *)
 EXTENDS IHex
 CONSTANTS MaxRegs, MaxLen, Chunk
-VARIABLES regs, start, phase, lines, l, rd
-vars == <<regs, start, phase, lines, l, rd>>
+VARIABLES regs, start, phase, lines, l, cur, rd      \* cur: the parsed record under the read head
+vars == <<regs, start, phase, lines, l, cur, rd>>
 
 AddrSpace == {<<h, o>> : h \in 0..(HiMod - 1), o \in 0..(LoMod - 1)}
 \* data of a region: a function of its address, so adjacent regions differ
@@ -18,25 +18,27 @@ DataAt(a, n) == [k \in 1..n |-> (37 * (a[1] * LoMod + a[2] + k - 1) + 201) % 256
 Starts == {[hi |-> 0, lo |-> 0], [hi |-> HiMod - 1, lo |-> 1]}
 Opts == {[ch |-> Chunk, split |-> s, lazy |-> z, upper |-> s, force05 |-> z] : s, z \in BOOLEAN}
 
-Init == regs = <<>> /\ start = [hi |-> 0, lo |-> 0] /\ phase = "build" /\ lines = <<>> /\ l = 0 /\ rd = RdInit
+Init == regs = <<>> /\ start = [hi |-> 0, lo |-> 0] /\ phase = "build" /\ lines = <<>> /\ l = 0 /\ cur = NoParse /\ rd = RdInit
 AddRegion == /\ phase = "build" /\ Len(regs) < MaxRegs
              /\ \E a \in AddrSpace, n \in 1..MaxLen :
                    LET r == Reg(a, DataAt(a, n))
                    IN /\ InDomain(Append(regs, r), LoMod, HiMod)
                       /\ regs' = Append(regs, r)
-             /\ UNCHANGED <<start, phase, lines, l, rd>>
+             /\ UNCHANGED <<start, phase, lines, l, cur, rd>>
 SetStart == /\ phase = "build" /\ start.hi = 0 /\ start.lo = 0
             /\ \E s \in Starts : (s.hi # 0 \/ s.lo # 0) /\ start' = s
-            /\ UNCHANGED <<regs, phase, lines, l, rd>>
+            /\ UNCHANGED <<regs, phase, lines, l, cur, rd>>
 Save == /\ phase = "build"
         /\ \E o \in Opts : lines' = Encode(regs, start, o)
-        /\ phase' = "read"
+        /\ phase' = "read" /\ cur' = Parse(lines'[1])
         /\ UNCHANGED <<regs, start, l, rd>>
 
 Exp == Merge(regs, LoMod)
-Cur == Parse(lines[l + 1])
+Cur == cur
 Reading == phase = "read" /\ l < Len(lines)
-Adv(nrd) == rd' = nrd /\ l' = l + 1 /\ UNCHANGED <<regs, start, phase, lines>>
+Adv(nrd) == /\ rd' = nrd /\ l' = l + 1
+            /\ cur' = (IF l + 2 <= Len(lines) THEN Parse(lines[l + 2]) ELSE NoParse)
+            /\ UNCHANGED <<regs, start, phase, lines>>
 ReadAfterEof == Reading /\ rd.eof /\ Adv(RdAfterEof(rd))
 ReadBad      == Reading /\ ~rd.eof /\ ~WellFormed(Cur) /\ Adv(RdBad(rd))
 Good(t)      == Reading /\ ~rd.eof /\ WellFormed(Cur) /\ Cur.typ = t
@@ -46,7 +48,7 @@ ReadExtLin   == Good(EXTLIN) /\ Adv(RdExtLin(rd, Cur))
 ReadExtSeg   == Good(EXTSEG) /\ Adv(RdExtSeg(rd, Cur))
 ReadStartLin == Good(STARTLIN) /\ Adv(RdStartLin(rd, Cur))
 ReadStartSeg == Good(STARTSEG) /\ Adv(RdStartSeg(rd, Cur))
-Finish == phase = "read" /\ l = Len(lines) /\ phase' = "done" /\ UNCHANGED <<regs, start, lines, l, rd>>
+Finish == phase = "read" /\ l = Len(lines) /\ phase' = "done" /\ UNCHANGED <<regs, start, lines, l, cur, rd>>
 Next == \/ AddRegion \/ SetStart \/ Save \/ Finish
         \/ ReadAfterEof \/ ReadBad \/ ReadData \/ ReadEof \/ ReadExtLin \/ ReadExtSeg \/ ReadStartLin \/ ReadStartSeg
 
@@ -63,24 +65,108 @@ LawMerge == LET m == Merge(regs, LoMod) IN
 LawCover == IsCover(rd.cov)
 \* ---- laws of the written file (final state)
 LawWellFormed == Done => AllWellFormed(P) /\ EofAt(P) = Len(P)
-LawAccept == Done => Accepts(rd, Exp, start) /\ rd = Run(lines, Exp)
+LawAccept == Done => Accepts(rd, Exp, start) /\ rd = RunP(P, Exp)
 LawRoundTrip == Done => /\ DecodedRegions(P) = Exp
                         /\ StartIs(DecodedStart(P), start)
                         /\ DecodesExactly(P, regs)
-\* a changed digit is always detected (length or checksum)
-LawCorrupt == Done => \A k \in 1..Len(lines) : \A c \in 2..Len(lines[k]) :
-                 LET d == HexDigit(lines[k][c])
-                     ln == [lines[k] EXCEPT ![c] = UDigit((d + 1) % 16)]
-                 IN ~WellFormed(Parse(ln))
-\* the two formulations agree on the file and on every file obtained from it
-\* by deleting or duplicating one record
+\* a changed digit is always detected (length or checksum).  A law about single
+\* records: checked on the files of at most one region, which contain every
+\* kind of record
+LawCorrupt == (Done /\ Len(regs) <= 1) =>
+                 \A k \in 1..Len(lines) : \A c \in 2..Len(lines[k]) :
+                     LET d == HexDigit(lines[k][c])
+                         ln == [lines[k] EXCEPT ![c] = UDigit((d + 1) % 16)]
+                     IN ~WellFormed(Parse(ln))
+\* the two formulations (streaming reader, declarative decoder) agree on the
+\* file and on every file obtained from it by deleting one record or (files of
+\* at most one region) duplicating one record; and deleting or duplicating a
+\* data record is never accepted
 Drop(s, k) == SubSeq(s, 1, k - 1) \o SubSeq(s, k + 1, Len(s))
 Dup(s, k) == SubSeq(s, 1, k) \o SubSeq(s, k, Len(s))
-Variants == {lines} \cup {Drop(lines, k) : k \in 1..Len(lines)} \cup {Dup(lines, k) : k \in 1..Len(lines)}
-LawAgree == Done => \A v \in Variants : Accepts(Run(v, Exp), Exp, start) <=> DeclAccepts(Parsed(v), regs, start)
-\* and deleting or duplicating a data record is never accepted
-LawStrict == Done => \A k \in 1..Len(lines) :
-                 (P[k].typ = DATA /\ P[k].count > 0) =>
-                     /\ ~Accepts(Run(Drop(lines, k), Exp), Exp, start)
-                     /\ ~Accepts(Run(Dup(lines, k), Exp), Exp, start)
+AgreeOn(v, must_reject) == LET acc == Accepts(RunP(v, Exp), Exp, start)
+                           IN (acc <=> DeclAccepts(v, regs, start)) /\ (must_reject => ~acc)
+LawAgree == Done => /\ AgreeOn(P, FALSE)
+                    /\ \A k \in 1..Len(P) :
+                          LET isdata == P[k].typ = DATA /\ P[k].count > 0
+                          IN /\ AgreeOn(Drop(P, k), isdata)
+                             /\ (Len(regs) <= 1 => AgreeOn(Dup(P, k), isdata))
+
+\* ---- known-answer files with the real constants (LoMod = HiMod = 65536):
+\* the example of the format's Wikipedia article, segment addressing with an
+\* offset that wraps inside the segment (02/03 records), linear addressing
+\* that wraps modulo 2^32 with a start address (04/05) and lower-case digits,
+\* and a file of malformed records and records after the end-of-file record.
+KatWiki == <<
+    \* :10010000214601360121470136007EFE09D2190140
+    <<58,49,48,48,49,48,48,48,48,50,49,52,54,48,49,51,54,48,49,50,49,52,55,48,49,51,54,48,48,55,69,70,69,48,57,68,50,49,57,48,49,52,48>>,
+    \* :100110002146017E17C20001FF5F16002148011928
+    <<58,49,48,48,49,49,48,48,48,50,49,52,54,48,49,55,69,49,55,67,50,48,48,48,49,70,70,53,70,49,54,48,48,50,49,52,56,48,49,49,57,50,56>>,
+    \* :10012000194E79234623965778239EDA3F01B2CAA7
+    <<58,49,48,48,49,50,48,48,48,49,57,52,69,55,57,50,51,52,54,50,51,57,54,53,55,55,56,50,51,57,69,68,65,51,70,48,49,66,50,67,65,65,55>>,
+    \* :100130003F0156702B5E712B722B732146013421C7
+    <<58,49,48,48,49,51,48,48,48,51,70,48,49,53,54,55,48,50,66,53,69,55,49,50,66,55,50,50,66,55,51,50,49,52,54,48,49,51,52,50,49,67,55>>,
+    \* :00000001FF
+    <<58,48,48,48,48,48,48,48,49,70,70>>
+  >>
+KatSeg == <<
+    \* :020000021200EA
+    <<58,48,50,48,48,48,48,48,50,49,50,48,48,69,65>>,
+    \* :04FFFE00AABBCCDDF1
+    <<58,48,52,70,70,70,69,48,48,65,65,66,66,67,67,68,68,70,49>>,
+    \* :0400000300003800C1
+    <<58,48,52,48,48,48,48,48,51,48,48,48,48,51,56,48,48,67,49>>,
+    \* :00000001FF
+    <<58,48,48,48,48,48,48,48,49,70,70>>
+  >>
+KatLin == <<
+    \* :02000004FFFFFC
+    <<58,48,50,48,48,48,48,48,52,70,70,70,70,70,67>>,
+    \* :04FFFE00AABBCCDDF1
+    <<58,48,52,70,70,70,69,48,48,65,65,66,66,67,67,68,68,70,49>>,
+    \* :04000005000000CD2A
+    <<58,48,52,48,48,48,48,48,53,48,48,48,48,48,48,67,68,50,65>>,
+    \* :03001000010203e7
+    <<58,48,51,48,48,49,48,48,48,48,49,48,50,48,51,101,55>>,
+    \* :00000001FF
+    <<58,48,48,48,48,48,48,48,49,70,70>>
+  >>
+KatBad == <<
+    \* :03000000010203F0
+    <<58,48,51,48,48,48,48,48,48,48,49,48,50,48,51,70,48>>,
+    \* :020000000102
+    <<58,48,50,48,48,48,48,48,48,48,49,48,50>>,
+    \* :0000000
+    <<58,48,48,48,48,48,48,48>>,
+    \* 00000001FF
+    <<48,48,48,48,48,48,48,49,70,70>>,
+    \* :00000006FA
+    <<58,48,48,48,48,48,48,48,54,70,65>>,
+    \* :0100000401FA
+    <<58,48,49,48,48,48,48,48,52,48,49,70,65>>,
+    \* :00000001FF
+    <<58,48,48,48,48,48,48,48,49,70,70>>,
+    \* :0100000009F6
+    <<58,48,49,48,48,48,48,48,48,48,57,70,54>>,
+    \* :00000001FF
+    <<58,48,48,48,48,48,48,48,49,70,70>>
+  >>
+WikiData == <<33, 70, 1, 54, 1, 33, 71, 1, 54, 0, 126, 254, 9, 210, 25, 1, 33, 70, 1, 126, 23, 194, 0, 1, 255, 95, 22, 0,
+              33, 72, 1, 25, 25, 78, 121, 35, 70, 35, 150, 87, 120, 35, 158, 218, 63, 1, 178, 202, 63, 1, 86, 112, 43,
+              94, 113, 43, 114, 43, 115, 33, 70, 1, 52, 33>>
+Kats == {[lines |-> KatWiki, regs |-> <<Reg(<<0, 256>>, WikiData)>>, start |-> [hi |-> 0, lo |-> 0],
+          accept |-> TRUE, nbad |-> 0, nafter |-> 0],
+         [lines |-> KatSeg, regs |-> <<Reg(<<2, 8190>>, <<170, 187>>), Reg(<<1, 8192>>, <<204, 221>>)>>,
+          start |-> [hi |-> 0, lo |-> 0], accept |-> TRUE, nbad |-> 0, nafter |-> 0],
+         [lines |-> KatLin, regs |-> <<Reg(<<65535, 65534>>, <<170, 187>>), Reg(<<0, 0>>, <<204, 221>>), Reg(<<65535, 16>>, <<1, 2, 3>>)>>,
+          start |-> [hi |-> 0, lo |-> 205], accept |-> TRUE, nbad |-> 0, nafter |-> 0],
+         [lines |-> KatLin, regs |-> <<Reg(<<65535, 65534>>, <<170, 187>>), Reg(<<0, 0>>, <<204, 221>>), Reg(<<65535, 16>>, <<1, 2, 4>>)>>,
+          start |-> [hi |-> 0, lo |-> 205], accept |-> FALSE, nbad |-> 0, nafter |-> 0],
+         [lines |-> KatLin, regs |-> <<Reg(<<65535, 65534>>, <<170, 187>>), Reg(<<0, 0>>, <<204, 221>>), Reg(<<65535, 16>>, <<1, 2, 3>>)>>,
+          start |-> [hi |-> 0, lo |-> 206], accept |-> FALSE, nbad |-> 0, nafter |-> 0],
+         [lines |-> KatBad, regs |-> <<>>, start |-> [hi |-> 0, lo |-> 0], accept |-> FALSE, nbad |-> 6, nafter |-> 2]}
+InitKat == \E K \in Kats : /\ regs = K.regs /\ start = K.start /\ phase = "read" /\ lines = K.lines
+                            /\ l = 0 /\ cur = Parse(K.lines[1]) /\ rd = RdInit
+LawKat == Done => \A K \in Kats : (K.lines = lines /\ K.regs = regs /\ K.start = start) =>
+              /\ Accepts(rd, Exp, start) = K.accept /\ DeclAccepts(P, regs, start) = K.accept
+              /\ rd.nbad = K.nbad /\ rd.nafter = K.nafter /\ rd = RunP(P, Exp)
 =============================================================================
